@@ -48,7 +48,7 @@ def discharge(ob, tier='quick'):
     if ob.status == 'trivial':
         ob.backend = 'simplifier'
         return ob
-    scale = 1 if tier == 'quick' else 4
+    scale = {'quick': 1, 'thorough': 4, 'retry': 3}.get(tier, 1)
     t0 = time.time()
     neg = z3.Not(ob.goal)
     attempts = [('z3', True, Z3_TIMEOUT_MS * scale), ('z3-ematch', False, Z3_TIMEOUT_MS * scale)]
